@@ -1,0 +1,10 @@
+//go:build verif
+
+package req
+
+// Re-exports of unexported identifiers for the verification harness under /verif.
+// Compiled only with -tags verif; no existing line is changed.
+
+func VerifGetHostname(host string) string { return getHostname(host) }
+
+func VerifGetDomain(host string) string { return getDomain(host) }
